@@ -36,44 +36,42 @@ Theorem c08_no_lock_fault : forall g, balanced g = true ->
 Proof. exact balanced_no_fault. Qed.
 Print Assumptions c08_no_lock_fault.
 
-(* THE OBLIGATION over the generated list: every function / function literal of
-   iscp, wire, transport, encoding, internal that locks is balanced - except the known finding F6.
-   (When F6 is repaired in /repo, replace the filter by [all_cfgs]: the exclusion then hides nothing,
-   and [c08_F6_refuted] below stops compiling, which is the reminder.) *)
-Theorem c08_lock_release :
-  forallb balanced (filter (fun g => negb (is_known_F6 g)) all_cfgs) = true.
+(* THE OBLIGATION over the generated list: EVERY function / function literal of
+   iscp, wire, transport, encoding, internal that locks is balanced - no exclusion (F6 is repaired). *)
+Theorem c08_lock_release : forallb balanced all_cfgs = true.
 Proof. vm_compute. reflexivity. Qed.
 Print Assumptions c08_lock_release.
 
 (* ... hence the path property for each of them *)
-Theorem c08_lock_release_paths : forall g, In g all_cfgs -> is_known_F6 g = false ->
+Theorem c08_lock_release_paths : forall g, In g all_cfgs ->
   exists s0, init_state (locks_of g) g = Some s0 /\
   forall p b nd, path (nodes g) 0 p b -> nth_error (nodes g) b = Some nd -> succs nd = [] ->
     exists s, run_path (locks_of g) (nodes g) 0 p s0 = Some s /\ fst s = snd s.
 Proof.
-  intros g Hin HF. apply balanced_sound.
-  apply (forallb_balanced _ c08_lock_release). apply filter_In. split; [exact Hin | now rewrite HF].
+  intros g Hin. apply balanced_sound. apply (forallb_balanced _ c08_lock_release). exact Hin.
 Qed.
 Print Assumptions c08_lock_release_paths.
 
-(* F6 (wire/client_conn.go readDownstreamMetadataLoop): the checker rejects the function, and here
-   is the path: entry -> range head (message received) -> body: RLock -> stream alias subscribed ->
-   source node NOT subscribed: `continue` -> range head -> channel closed: exit, with
-   c.downstreams.mu still read-locked and no deferred release. *)
-Theorem c08_F6_refuted :
-  exists g, In g all_cfgs /\ is_known_F6 g = true /\ balanced g = false /\
-  exists p b nd s, is_path (nodes g) 0 p = true /\ last p 0 = b /\
-    nth_error (nodes g) b = Some nd /\ succs nd = [] /\
-    run_path (locks_of g) (nodes g) 0 p (zero_vec (locks_of g), zero_vec (locks_of g)) = Some s /\
-    locks_of g = [("c.downstreams.mu", R)] /\ s = ([1], [0]).
+(* former F6 (wire/client_conn.go readDownstreamMetadataLoop before 900bd4c; the CFG is kept in
+   Model/LockCfg.v): the checker rejects that shape, and here is the path: entry -> range head
+   (message received) -> body: RLock -> stream alias subscribed -> source node NOT subscribed:
+   `continue` -> range head -> channel closed: exit, with c.downstreams.mu still read-locked and
+   no deferred release.  The function as it is now is in all_cfgs and balanced. *)
+Theorem c08_F6_former_refuted :
+  balanced former_F6_cfg = false /\
+  (exists p b nd s, is_path (nodes former_F6_cfg) 0 p = true /\ last p 0 = b /\
+    nth_error (nodes former_F6_cfg) b = Some nd /\ succs nd = [] /\
+    run_path (locks_of former_F6_cfg) (nodes former_F6_cfg) 0 p
+             (zero_vec (locks_of former_F6_cfg), zero_vec (locks_of former_F6_cfg)) = Some s /\
+    locks_of former_F6_cfg = [("c.downstreams.mu", R)] /\ s = ([1], [0])) /\
+  (exists g, find_cfg "wire.ClientConn.readDownstreamMetadataLoop" all_cfgs = Some g /\ balanced g = true).
 Proof.
-  exists cfg_wire_ClientConn_readDownstreamMetadataLoop.
-  split; [apply (find_cfg_In "wire.ClientConn.readDownstreamMetadataLoop"); vm_compute; reflexivity|].
-  split; [reflexivity|]. split; [vm_compute; reflexivity|].
-  exists [1; 2; 4; 6; 1; 3], 3, (mkNode [] [] true), ([1], [0]).
-  vm_compute. repeat split; reflexivity.
+  split; [vm_compute; reflexivity|]. split.
+  - exists [1; 2; 4; 6; 1; 3], 3, (mkNode [] [] true), ([1], [0]).
+    vm_compute. repeat split; reflexivity.
+  - exists cfg_wire_ClientConn_readDownstreamMetadataLoop. vm_compute. split; reflexivity.
 Qed.
-Print Assumptions c08_F6_refuted.
+Print Assumptions c08_F6_former_refuted.
 
 (* the translator's own dataflow (whose held-sets feed gen-waits and gen-guards) gives the same
    verdict as [balanced] on every generated function *)
